@@ -18,5 +18,14 @@ type EventProcessor interface {
 	RollbackEvents(ctx context.Context, tx pgx.Tx, toBlock int64) error
 }
 
+// RangeSplitter can be implemented by event processors whose events change what other processors
+// have to fetch for later blocks. MultiEventSyncer does not sync past a block returned by
+// SplitBlocks before the events up to and including that block have been stored.
+type RangeSplitter interface {
+	// SplitBlocks returns the block numbers of those of the given (fetched, not yet processed)
+	// events that other processors depend on.
+	SplitBlocks(events []Event) []uint64
+}
+
 // Event represents a generic blockchain event that can be processed.
 type Event interface{}
